@@ -38,6 +38,9 @@ func vRunCase(c vCase) (out vOut) {
 	vTier = c.Tier
 	vHeldRanks, vMainGoid, vNoBlockMsg, vSpawned = nil, vGoid(), "", nil
 	vGoLive, vPreemptBody = false, nil
+	vOtherMu.Lock()
+	vOtherRanks, vAsyncMsg = map[uint64]*[]int{}, ""
+	vOtherMu.Unlock()
 	vRaceMode, vRaceStop = c.Race, make(chan struct{})
 	defer func() {
 		if vRaceMode {
@@ -64,6 +67,11 @@ func vRunCase(c vCase) (out vOut) {
 	}()
 	h()
 	out.Outcome = "ok"
+	vOtherMu.Lock()
+	if vAsyncMsg != "" {
+		out.Outcome, out.Msg = "assert", vAsyncMsg
+	}
+	vOtherMu.Unlock()
 	return out
 }
 
